@@ -4,7 +4,7 @@ from common import *
 import realdata
 
 PID = "C15"
-TIES = ['parse_compact_size', 'block_header']   # source-tie files coq/Properties/Tie_<f>.v that belong to this property
+TIES = ['parse_compact_size', 'block_header', 'tx_ids']   # source-tie files coq/Properties/Tie_<f>.v that belong to this property
 THEOREMS = ["C15_header_roundtrip", "C15_header_fields", "C15_block_hash", "C15_target", "C15_scanner", "C15_block"]
 TECHNIQUE = "Coq proof (header round-trip, compact-target arithmetic, scanner = serialiser length, block parse by induction over transactions) + extracted-model correspondence; real blocks certified by merkle root, witness commitment and proof-of-work"
 RULE = ("random 80-byte headers, compact targets with every exponent 3..32 (and the out-of-domain exponents 0..2, 33..35), synthetic framed "
